@@ -1795,7 +1795,7 @@ func (a *Authenticator) setupStreamEncryption(negotiation *SecurityNegotiation) 
 			// If ECDH fails, log but don't fail the entire handshake
 			// This allows tests with placeholder keys to work
 			slog.Debug(fmt.Sprintf("⚠️  CRYPTO: ECDH key exchange failed (continuing without encryption): %v", err), "destination", "cedar")
-			return nil
+			return a.plaintextOutcome(negotiation)
 		}
 
 		slog.Debug("🔐 CRYPTO: ECDH successful, deriving AES key...", "destination", "cedar")
@@ -1838,6 +1838,23 @@ func (a *Authenticator) setupStreamEncryption(negotiation *SecurityNegotiation) 
 	// Freeze it now so the application phase -- e.g. a large collector query stream --
 	// skips the per-frame SHA256. Idempotent on an already-frozen (resumed) session.
 	a.stream.FinalizeDigests()
+	return a.plaintextOutcome(negotiation)
+}
+
+// plaintextOutcome is the result of setupStreamEncryption when no key was
+// installed (the peer sent no or an unusable ECDH key, or no usable cipher was
+// agreed). The reported outcome follows the stream's real state rather than the
+// negotiated intent, and the handshake fails if this endpoint's own policy
+// requires encryption or integrity: REQUIRED must not degrade to a plaintext
+// session because of what the peer chose to send.
+func (a *Authenticator) plaintextOutcome(negotiation *SecurityNegotiation) error {
+	negotiation.Encryption = a.stream.IsEncrypted()
+	if negotiation.Encryption {
+		return nil
+	}
+	if a.config != nil && (a.config.Encryption == SecurityRequired || a.config.Integrity == SecurityRequired) {
+		return fmt.Errorf("encryption/integrity is required by local policy but no session key could be established with the peer")
+	}
 	return nil
 }
 
